@@ -215,7 +215,7 @@ theorem tblc_charsRunK_foldlM {cfg : Config Id} {rule : SState → STok → Spec
 theorem tblc_tr_ignoreLf {s s' : State} {c : List Call} {R : Aux → Aux → Prop} (hm : MInv s) (h : Tr s s' c R)
     (hR : ∀ x x', AuxOk s x → AuxOk s' x' → R x x' → (absF s' x').ignoreLf = (absF s x).ignoreLf) :
     s'.ignoreLf = s.ignoreLf := by
-  obtain ⟨hm', -, -, ids, f⟩ := h
+  obtain ⟨hm', -, -, ids, hfi, f⟩ := h
   obtain ⟨x, hx, hsup⟩ := tbl_auxOk_exists hm ids
   obtain ⟨x', l, r⟩ := f x [] hx (by simp [hsup])
   exact hR x x' hx l.aux r
